@@ -690,11 +690,10 @@ class ABPE:
             yield 'raise', st
         elif isinstance(s, ast.Assert):
             for b, s2 in self.truth(s.test, st):
+                # an assertion states an invariant: the decision table continues under it; the failing side is not a behaviour of
+                # the request that a specification row could be about
                 if b:
                     yield 'fall', s2
-                else:
-                    s2.events.append(Event('raise', 'AssertionError', s, name='AssertionError'))
-                    yield 'raise', s2
         elif isinstance(s, ast.Assign):
             if isinstance(s.value, (ast.Tuple, ast.List)) and len(s.targets) == 1 and isinstance(s.targets[0], (ast.Tuple, ast.List)) \
                     and len(s.value.elts) == len(s.targets[0].elts):
